@@ -494,7 +494,10 @@ EditStep(s, e) ==
            (IF e.ev = "Edit" THEN Chk(LocalSemantics(e), "LocalSemantics") \cup Chk(ViewConsistent(e), "ViewConsistent")
                                   \cup Chk(FailedKeepsView(e), "FailedKeepsView") ELSE {}) \cup
            Chk(e.ev = "Edit" => (e.ok \/ e.fail # ""), "EditNeverFails") \cup
-           Chk(e.ev \in {"Undo", "Redo"} => e.ok, "UndoRedoNeverFails")
+           Chk(e.ev \in {"Undo", "Redo"} => e.ok, "UndoRedoNeverFails") \cup
+           \* C15: an undo/redo that changed what the document shows is a change the peers must get
+           Chk((e.ev \in {"Undo", "Redo"} /\ e.ok /\ old.has /\ new.content # old.content) => Len(new.pend) > Len(old.pend),
+               "UndoQueuesChange")
   IN R([s EXCEPT !.rep = Upd(@, k, [new2 EXCEPT !.past = past2, !.future = future2])], v)
 
 \* ---- Ref: reference replica advances by one row ------------------------
